@@ -110,6 +110,7 @@ def check(ctx):
     # cell fidelity: a list attribute is written entry by entry, repeated entries included
     ctx.attempt(common.dedup_idioms, [f for f in ctx.repo.funcs.values() if f.module.name.endswith(('containers.containers', 'tractwriter.tractwriter'))])
     # one row per tract: the collectors behind the writers keep every element
+    ctx.attempt(common.first_element_speaks_for_all, [f for f in ctx.repo.funcs.values() if f.module.name.endswith('containers.containers')])
     ctx.attempt(common.no_dedup_on_insert, [f for f in ctx.repo.funcs.values() if f.module.name.endswith(('containers.containers', 'tractwriter.tractwriter'))])
 
 
